@@ -51,6 +51,10 @@ def ws2dwcvp(y, nodata, p, llas, robust, out, lopt):
     d_eigs[0] = 1e-15
 
     if n > 4:
+        # missing cells carry no weight: keep their placeholder (possibly NaN / inf,
+        # for which 0 * y is not 0) out of the arithmetic
+        y = np.where(w == 0, 0.0, y)
+
         z = np.zeros(m)
         znew = np.zeros(m)
         wa = np.zeros(m)
